@@ -203,7 +203,8 @@ def run_cmd_case(case, res: CaseResult):
         creds = CREDS[int(case.get('creds', 0) or 0) % len(CREDS)]
     except Exception:
         creds = None
-    sfx = ':after-credentials-change' if creds else ''
+    # the changed setting can only matter for the commands whose expected reply names the own user
+    sfx = ':after-credentials-change' if (creds and name in OWN_NAME_COMMANDS) else ''
     out = {}
 
     async def main(world):
